@@ -251,3 +251,36 @@ Example C20_reg_nonvacuous :
   rerrs (rsh x) = 1.
 Proof. vm_compute. repeat split; reflexivity. Qed.
 Print Assumptions C20_reg_nonvacuous.
+
+(* ---------------------------------------------------------------- a removed handle is the one marked stale *)
+Theorem C20_conc_removed_is_stale : forall c progs sched,
+  c_variant c = Repaired ->
+  let x := run_sched c (sys0 progs) sched in
+  quiescent x = true ->
+  forall id h, get_handle (sh x) id = Some h -> in_map (sh x) id = true \/ h_stale h = true.
+Proof. exact conc_removed_is_stale. Qed.
+Print Assumptions C20_conc_removed_is_stale.
+
+(* UnregisterSeries with LoadAndDelete instead of CompareAndDelete (seeded change C20_n2): U1 (thread 0) loads e1 and
+   pauses; U2 (thread 1) unregisters e1; the creator (thread 2) re-resolves the tuple and gets e2; U1 resumes and removes
+   e2 but marks e1 stale.  seriesCount stays exact, both unregisters report true, and the creator holds a handle that is in
+   no map and not stale: its emission is visible nowhere. *)
+Definition w4_progs : list (list op) := [[OResolve tA; OUnreg tA]; [OUnreg tA]; [OResolve tA; OEmitH 0 EAdd 1]].
+Definition w4_sched : list nat := [0;0;0;0; 0; 1;1;1;1; 2;2;2;2; 0;0;0; 2;2]%nat.
+Theorem C20_conc_removed_is_stale_refuted :
+  let x := run_sched (cfg_of LoadAndDel 2) (sys0 w4_progs) w4_sched in
+  quiescent x = true /\
+  (exists th, nth_error (ths x) 2 = Some th /\ t_slots th = [RH 1]) /\
+  in_map (sh x) 1 = false /\ option_map h_stale (get_handle (sh x) 1) = Some false /\
+  cnt (sh x) = Z.of_nat (length (smap (sh x))) /\
+  visible KCounter (sh x) = 0 /\ progs_weight KCounter w4_progs = 1.
+Proof. vm_compute. repeat split; try reflexivity. eexists; split; reflexivity. Qed.
+Print Assumptions C20_conc_removed_is_stale_refuted.
+
+Example C20_conc_removed_is_stale_nonvacuous :
+  let x := run_sched (cfg_of Repaired 2) (sys0 w4_progs) w4_sched in
+  quiescent x = true /\ in_map (sh x) 1 = true /\ option_map h_stale (get_handle (sh x) 0) = Some true /\
+  visible KCounter (sh x) = 1 /\
+  (exists th, nth_error (ths x) 0 = Some th /\ hd_error (t_out th) = Some (ResB false)).
+Proof. vm_compute. repeat split; try reflexivity. eexists; split; reflexivity. Qed.
+Print Assumptions C20_conc_removed_is_stale_nonvacuous.
